@@ -621,6 +621,28 @@ impl FunctionCompiler<'_> {
                     assert!(!dest_ty.is_aggregate());
 
                     dest.write_all(res, *dest_ty, self.module, &mut self.builder);
+                } else if dest_ty.is_aggregate() && {
+                    let mut value = assign_body.value;
+                    while let hir::Expr::Paren(Some(inner)) = self.world_bodies[self.loc.file()][value] {
+                        value = inner;
+                    }
+                    matches!(
+                        self.world_bodies[self.loc.file()][value],
+                        hir::Expr::StructLiteral { .. } | hir::Expr::ArrayLiteral { .. }
+                    )
+                } {
+                    // a literal is built member by member, and its members may read the destination
+                    // (`p = P.{ x = p.y, y = p.x }`), so it is built aside and then copied over
+                    let dest_ty = *dest_ty;
+                    let stack_slot = self.builder.create_sized_stack_slot(StackSlotData {
+                        kind: StackSlotKind::ExplicitSlot,
+                        size: dest_ty.size(),
+                        align_shift: dest_ty.align_shift(),
+                    });
+                    let temp = MemoryLoc::from_stack(stack_slot, 0);
+                    self.compile_and_cast_into_memory(assign_body.value, dest_ty, temp);
+                    let temp = temp.into_value(&mut self.builder, self.ptr_ty);
+                    dest.write_all(Some(temp), dest_ty, self.module, &mut self.builder);
                 } else {
                     self.compile_and_cast_into_memory(assign_body.value, *dest_ty, dest);
                 }
